@@ -9,13 +9,13 @@ PKG=$(grep -m1 -o 'place in: *[^ ]*' $S/demo_test.go | sed 's/place in: *//')
 [ -z "$PKG" ] && { echo "no package marker in demo_test.go"; exit 9; }
 cd $W && git checkout -q -- pkg && git apply $S/patch.diff || { echo "patch does not apply in scratch"; exit 9; }
 cp $S/demo_test.go $W/$PKG/zz_seed_demo_test.go
-(cd $W && go test -vet=off -count=1 ./$PKG/ -run 'Seed|seed|Demo|demo' 2>&1 | tail -3) > /tmp/seed_with.log
+(cd $W && go test -vet=off -count=1 ./$PKG/ -run 'Seed|seed|Demo|demo|TestC[0-9][0-9]' 2>&1 | tail -3) > /tmp/seed_with.log
 grep -q "^FAIL\|--- FAIL" /tmp/seed_with.log && echo "demo WITH patch: FAIL (expected)" || { echo "demo WITH patch did not fail:"; cat /tmp/seed_with.log; }
 rm $W/$PKG/zz_seed_demo_test.go
 python3 /verif/tools/baseline_check.py $W | tail -1
 cd $W && git checkout -q -- pkg && rm -f test_outputs/connlist/actual_* 
 cp $S/demo_test.go $W/$PKG/zz_seed_demo_test.go
-(cd $W && go test -vet=off -count=1 ./$PKG/ -run 'Seed|seed|Demo|demo' 2>&1 | tail -3) > /tmp/seed_without.log
+(cd $W && go test -vet=off -count=1 ./$PKG/ -run 'Seed|seed|Demo|demo|TestC[0-9][0-9]' 2>&1 | tail -3) > /tmp/seed_without.log
 grep -q "^ok" /tmp/seed_without.log && echo "demo WITHOUT patch: PASS (expected)" || { echo "demo WITHOUT patch did not pass:"; cat /tmp/seed_without.log; }
 rm $W/$PKG/zz_seed_demo_test.go; rm -f $W/test_outputs/connlist/actual_*
 cd /verif && git -C /repo apply $S/patch.diff && { ./check $P $TIER 2>&1 | grep -v "^ZZ_" | tail -6; echo "check exit=${PIPESTATUS[0]}"; }; git -C /repo checkout -- . 
